@@ -94,7 +94,8 @@ func c05Structures(c *Ctx, r *Rng) []c05AS {
 	}
 	{ // CNF: random maximal unqualified sets over 4-5 holders; a holder outside k sets owns k rows
 		n := 4 + r.IntN(2)
-		ids := c05PickIDs(r, n, big)
+		// small IDs only: cnf.InducedMSP panics for IDs > 64 (bitset), which is C02's finding
+		ids := c05PickIDs(r, n, false)
 		nsets := 3 + r.IntN(3)
 		us := make([][]sharing.ID, 0, nsets)
 		for len(us) < nsets {
